@@ -512,6 +512,13 @@ def run_inner(args):
             continue
         if spans and not exact and m > reach:
             what = 'KF-undetected-breakdown ' + what
+        elif spans and not exact and P.hermitian and m == reach and m > 15:
+            # Hermitian Lanczos without re-orthogonalisation: in a long recursion the basis loses orthogonality and Ritz pairs other than the extreme one are wrong
+            # although the space spans the sector; short recursions (m <= 15) and the extreme pair stay claims
+            y0 = Yd[0]
+            first_ok = np.linalg.norm(P.M @ y0 - val[0] * y0) <= 1e-6 * sc * np.linalg.norm(y0) and abs(val[0].real - wr[0].real) <= 1e-6 * sc if which in ('SR', 'LR') else True
+            if first_ok:
+                what = 'KF-lanczos-orthogonality ' + what
         out_events.append({'op': 'eigs', 'what': what, 'k': kk if len(Y) < k else k, 'returned': len(Y), 'm': int(m), 'ncv': ncv, 'reach': int(reach), 'spans': spans, 'hermitian': P.hermitian,
                            'exact': bool(exact), 'bounds': bool(bounds), 'verdicts': verd})
     # ---------------- lin_solver ----------------
@@ -570,7 +577,7 @@ def main(tier, seed, replay=None):
         raise Machinery('KrylovMC with the pre-fix rule (m == ncv_max) should violate Prop_Progress: the model lost its teeth (%s)' % (r2.violated,))
     rep.cov['parts']['pre_fix_rule_violates_progress'] = True
     n, maxdim = (80, 120) if tier == 'quick' else (420, 200)
-    jobs = [(seed * 1000003 + i, maxdim) for i in range(n)]
+    jobs = [(seed * 1000003 + i, maxdim) for i in range(n)] + [(4000053, 40)]      # the last one: canonical reproducer of the known finding 'Lanczos loses orthogonality'
     with ProcessPoolExecutor(max_workers=14) as ex:
         evs = [e for lst in ex.map(run, jobs, chunksize=2) for e in lst]
     mach = [e for e in evs if e['op'] == 'machinery']
@@ -610,6 +617,8 @@ def main(tier, seed, replay=None):
                 sig = 'expmv:error-estimate-optimistic-up-to-2000tol:' + e['what']
             elif e['what'].startswith('KF-undetected-breakdown'):
                 sig = 'eigs:undetected-breakdown-continues-with-noise:' + e['what']
+            elif e['what'].startswith('KF-lanczos-orthogonality'):
+                sig = 'eigs:lanczos-long-recursion-loses-orthogonality:' + e['what']
             rep.violation(sig, '%s (%s): %s' % (e['op'], e['what'], why[:700]), {'op': e['op'], 'what': e['what'], 'event': e})
     if any((not a) and not rj for a, rj in zip(acc, validate_traces.last_rejects)):
         raise Machinery('C18 trace neither accepted nor rejected')
